@@ -60,7 +60,8 @@ DepthBounded == {"self-proc-nontail", "exec-chain", "xname-if-recursion", "xname
 
 VARIABLE pick
 Init == pick = <<>>
-Next == pick = <<>> /\ (\/ \E sh \in (IF DepthOnly THEN DepthBounded ELSE Shapes), n \in Sizes : pick' = <<sh, n>>
-                       \/ ~DepthOnly /\ \E sh \in ExpShapes, e \in Exps : pick' = <<sh, e>>)
+Next == /\ pick = <<>>
+        /\ \/ \E sh \in (IF DepthOnly THEN DepthBounded ELSE Shapes), n \in Sizes : pick' = <<sh, n>>
+           \/ (~DepthOnly /\ \E sh \in ExpShapes, e \in Exps : pick' = <<sh, e>>)
 Emit == pick # <<>> => CSVWrite("%1$s", <<ToJson([shape |-> pick[1], size |-> pick[2], expect |-> IF pick[1] \in DepthBounded THEN "depth-limit" ELSE "returns"])>>, OutFile)
 =============================================================================
